@@ -354,6 +354,23 @@ pub fn cases_for(p: &dyn ParserCase, e: &Entry, sentence: &str, base: &RunOut, t
             }
         }
     }
+    // T inside a gap: the stream ends within whitespace or within a comment
+    // (possibly leaving it unterminated).  Every token before the cut is
+    // complete, so the input is a proper prefix of the sentence.
+    if e.c12.contains('T') {
+        for (i, l) in leaves.iter().enumerate().step_by(stride) {
+            if let Some(n) = leaves.get(i + 1) {
+                let (a, z) = (l.end as usize, n.start as usize);
+                if z > a + 1 {
+                    let inner: Vec<usize> = (a + 1..z).filter(|c| sentence.is_char_boundary(*c)).collect();
+                    let step = (inner.len() / if thorough { 16 } else { 6 }).max(1);
+                    for c in inner.into_iter().step_by(step) {
+                        f(mk(sentence[..c].to_string(), "T", Expect::OkOrErrAtEnd, c, sentence, format!("stream torn inside the gap after token {i} (offset {c})")));
+                    }
+                }
+            }
+        }
+    }
     // G: garbage at every token start
     if e.c12.contains('G') {
         for (i, l) in leaves.iter().enumerate().step_by(stride) {
